@@ -318,6 +318,124 @@ fn feature_sweeps(rep: &mut Report, thorough: bool) {
     }
 }
 
+
+/// Ring addresses with two regions that are adjacent in the frontend's address space but far
+/// apart in guest address space: every (desc, avail, used) triple over the edges of both regions
+/// must be installed as the guest address of *its own* region.
+fn two_region_addresses(rep: &mut Report) {
+    let mut h = match daemon(Cfg::default(), PROTO, VIRTIO_ALL) {
+        Ok(h) => h,
+        Err(e) => return rep.violation("C14:setup", &e, json!({})),
+    };
+    let mem = memfd("c14-2r", 0x10000);
+    let r1 = Region { gpa: 0x0, size: 0x8000, user: USER, offset: 0 };
+    let r2 = Region { gpa: 0x10_0000, size: 0x8000, user: USER + 0x8000, offset: 0x8000 };
+    if h.ack(SET_MEM_TABLE, &p_mem_table(&[r1, r2]), &[mem.as_raw_fd(), mem.as_raw_fd()]) != Ok(true) {
+        return rep.violation("C14:setup", "two-region table refused", json!({"check":"C14","part":"two_region_addresses"}));
+    }
+    let tr = |off: u64| -> u64 { if off < 0x8000 { off } else { 0x10_0000 + (off - 0x8000) } };
+    let edges: Vec<u64> = vec![0, 0x10, 0x4000, 0x7ff0, 0x8000, 0x8010, 0xc000, 0xfff0];
+    for &d in &edges {
+        for &a in &edges {
+            for &u in &edges {
+                let r = h.ack(SET_VRING_ADDR, &p_vring_addr(1, 0, USER + d, USER + u, USER + a, 0), &[]);
+                rep.evaluations += 1;
+                rep.transitions += 1;
+                match r {
+                    Ok(true) => {
+                        let s = h.probe(0).map(|s| s.get(1).cloned().unwrap_or_default()).unwrap_or_default();
+                        if s.desc != tr(d) || s.avail != tr(a) || s.used != tr(u) {
+                            rep.outcome("two-region-triple-differs");
+                            rep.violation("C14:set_vring_addr:translated-addresses", &format!("two regions adjacent in user space (guest 0x0 and 0x100000): user offsets desc {d:#x} avail {a:#x} used {u:#x} installed as {:#x}/{:#x}/{:#x}, expected {:#x}/{:#x}/{:#x}", s.desc, s.avail, s.used, tr(d), tr(a), tr(u)), json!({"check":"C14","part":"two_region_addresses","d":d,"a":a,"u":u}));
+                        } else {
+                            rep.outcome("two-region-triple-applied");
+                            rep.nontrivial += 1;
+                        }
+                    }
+                    _ => {
+                        rep.outcome("two-region-triple-refused");
+                        if renegotiate(&mut h, PROTO, VIRTIO_ALL).is_err() {
+                            return;
+                        }
+                    }
+                }
+            }
+        }
+    }
+}
+
+/// Negotiation histories: SET_FEATURES with / without EVENT_IDX interleaved with RESET_OWNER and
+/// RESET_DEVICE. After every accepted SET_FEATURES the backend and every queue must hold the
+/// *latest* set, whatever was negotiated or reset before.
+fn feature_histories(rep: &mut Report, depth: usize) {
+    #[derive(Clone, Copy, Debug, PartialEq)]
+    enum F {
+        Plain,
+        EventIdx,
+        EventIdxOnly,
+        ResetOwner,
+        ResetDevice,
+    }
+    let ops = [F::Plain, F::EventIdx, F::EventIdxOnly, F::ResetOwner, F::ResetDevice];
+    let mut seqs: Vec<Vec<F>> = vec![vec![]];
+    let mut all: Vec<Vec<F>> = Vec::new();
+    for _ in 0..depth {
+        let mut next = Vec::new();
+        for s in &seqs {
+            for o in ops {
+                let mut t = s.clone();
+                t.push(o);
+                next.push(t);
+            }
+        }
+        all.extend(next.iter().filter(|s| !matches!(s.last(), Some(F::ResetOwner | F::ResetDevice))).cloned());
+        seqs = next;
+    }
+    for seq in all {
+        let cfg = Cfg { num_queues: 2, features: VIRTIO_ALL, masks: vec![0b11], ..Default::default() };
+        let mut h = match daemon(cfg, PROTO, VIRTIO_ALL) {
+            Ok(h) => h,
+            Err(e) => return rep.violation("C14:setup", &e, json!({})),
+        };
+        let case = json!({"check":"C14","part":"feature_histories","seq":format!("{seq:?}")});
+        for (k, o) in seq.iter().enumerate() {
+            let n_before = h.be.sh.0.lock().unwrap().acked_features.len();
+            let e_before = h.be.sh.0.lock().unwrap().event_idx.len();
+            let (code, payload, set): (u32, Vec<u8>, Option<u64>) = match o {
+                F::Plain => (SET_FEATURES, p_u64(VIRTIO_F_PROTOCOL_FEATURES | 0x3), Some(VIRTIO_F_PROTOCOL_FEATURES | 0x3)),
+                F::EventIdx => (SET_FEATURES, p_u64(VIRTIO_F_PROTOCOL_FEATURES | 0x3 | 1 << 29), Some(VIRTIO_F_PROTOCOL_FEATURES | 0x3 | 1 << 29)),
+                F::EventIdxOnly => (SET_FEATURES, p_u64(VIRTIO_F_PROTOCOL_FEATURES | 1 << 29), Some(VIRTIO_F_PROTOCOL_FEATURES | 1 << 29)),
+                F::ResetOwner => (RESET_OWNER, vec![], None),
+                F::ResetDevice => (RESET_DEVICE, vec![], None),
+            };
+            let r = h.ack(code, &payload, &[]);
+            rep.evaluations += 1;
+            rep.transitions += 1;
+            if r != Ok(true) {
+                rep.outcome("feature-history-step-failed");
+                rep.violation("C14:feature_histories:step-failed", &format!("step {k} ({o:?}) of {seq:?} answered {r:?}"), case.clone());
+                break;
+            }
+            if let Some(f) = set {
+                let want_ev = f & (1 << 29) != 0;
+                let (acked, evs) = {
+                    let s = h.be.sh.0.lock().unwrap();
+                    (s.acked_features[n_before..].to_vec(), s.event_idx[e_before..].to_vec())
+                };
+                let snaps = h.probe_all().unwrap_or_default();
+                let all_q: Vec<bool> = snaps.iter().flat_map(|s| s.iter().map(|q| q.event_idx)).collect();
+                if acked != vec![f] || evs.last() != Some(&want_ev) || all_q.len() != 2 || all_q.iter().any(|e| *e != want_ev) {
+                    rep.outcome("feature-history-differs");
+                    rep.violation("C14:feature_histories:delivery", &format!("after {:?}: SET_FEATURES({f:#x}) gave backend.acked_features {:x?}, set_event_idx {:?}, queues' event_idx {:?} (expected {want_ev})", &seq[..=k], acked, evs, all_q), case.clone());
+                    break;
+                }
+                rep.outcome("feature-history-delivered");
+                rep.nontrivial += 1;
+            }
+        }
+    }
+}
+
 fn backend_channel(rep: &mut Report) {
     for mask in 0..8u64 {
         let proto = PF_BACKEND_REQ | PF_MQ | if mask & 1 != 0 { PF_REPLY_ACK } else { 0 } | if mask & 2 != 0 { PF_SHARED_OBJECT } else { 0 } | if mask & 4 != 0 { PF_SHMEM } else { 0 };
@@ -544,6 +662,8 @@ pub fn run(rep: &mut Report) {
     index_sweep(rep);
     size_base_used_sweeps(rep, thorough);
     feature_sweeps(rep, thorough);
+    two_region_addresses(rep);
+    feature_histories(rep, if thorough { 5 } else { 3 });
     backend_channel(rep);
     histories(rep, if thorough { 5 } else { 4 });
     let p = take_panics();
@@ -556,7 +676,7 @@ pub fn run(rep: &mut Report) {
     rep.sample(json!({"part":"set_vring_num","num":3,"expect":"rejected, or the ring really has size 3"}));
     rep.sample(json!({"part":"histories","seq":["TableA","Addr","Call1","TableB","Call2","UseRing"],"expect":"used element in table B's file, only call descriptor 2 signalled"}));
     rep.sample(json!({"part":"set_features","offered":"0x160000003","requested":"0x20000000","expect":"accepted, backend gets exactly 0x20000000, event_idx=true on every queue"}));
-    rep.rule = "ring index 0..=255 for each of the 8 per-ring messages; SET_VRING_NUM over 0..=300 and boundaries (0..=65535 and beyond at thorough) with the resulting queue size read back; SET_VRING_BASE then GET_VRING_BASE and used-index contents over 0..=260 and boundaries (0..=65535 at thorough); 343 address triples at region edges; SET_FEATURES for 7 offered masks x (single bits, offered minus/plus one bit, patterns) on 1-3 queues incl. EVENT_IDX; the backend-request channel after each of the 8 subsets of {REPLY_ACK, SHARED_OBJECT, SHMEM}; all histories of length <= 4 (5 at thorough) over {table A, table B, SET_VRING_ADDR, call fd1/fd2/none, add_used+signal} ending in a ring operation. Queue state is read by a probe listener inside the worker. Non-trivial = evaluations whose queue state / callback / memory / counter was compared".into();
+    rep.rule = "ring index 0..=255 for each of the 8 per-ring messages; SET_VRING_NUM over 0..=300 and boundaries (0..=65535 and beyond at thorough) with the resulting queue size read back; SET_VRING_BASE then GET_VRING_BASE and used-index contents over 0..=260 and boundaries (0..=65535 at thorough); 343 address triples at region edges, 512 triples over two regions adjacent in the frontend's address space but not in guest address space; all histories of length <= 3 (5 at thorough) over {SET_FEATURES plain / with EVENT_IDX / EVENT_IDX only, RESET_OWNER, RESET_DEVICE} ending in a SET_FEATURES (backend and queues must hold the latest set); SET_FEATURES for 7 offered masks x (single bits, offered minus/plus one bit, patterns) on 1-3 queues incl. EVENT_IDX; the backend-request channel after each of the 8 subsets of {REPLY_ACK, SHARED_OBJECT, SHMEM}; all histories of length <= 4 (5 at thorough) over {table A, table B, SET_VRING_ADDR, call fd1/fd2/none, add_used+signal} ending in a ring operation. Queue state is read by a probe listener inside the worker. Non-trivial = evaluations whose queue state / callback / memory / counter was compared".into();
 }
 
 pub fn replay(case: &Value, rep: &mut Report) {
